@@ -19,6 +19,11 @@ func (te *tableEngine) tableGameOpen() error {
 		return nil
 	}
 
+	// a closed or released table does not open another hand
+	if te.table.State.Status == TableStateStatus_TableClosed || te.isReleased {
+		return nil
+	}
+
 	// 開局
 	newTable, err := te.openGame(te.table)
 
